@@ -74,6 +74,29 @@ static int op_mul(int c, tok_t *a, out_t *o) { return do3(mpz_mul, c, a, o); }
 static int op_tdiv_q(int c, tok_t *a, out_t *o) { return do3g(mpz_tdiv_q, c, a, o); }
 static int op_tdiv_r(int c, tok_t *a, out_t *o) { return do3g(mpz_tdiv_r, c, a, o); }
 
+/* mpz_tdiv_qr (q, r, n, d): mode qa qv ra rv na nv da dv; q and r always distinct; mode: 0 all distinct, 1 q is n, 2 q is d, 3 r is n,
+   4 r is d, 5 q is n and r is d, 6 q is d and r is n, 7 n is d (q, r distinct from it), 8 q is n is d, 9 r is n is d.
+   Output: ALLOC SIZ value of q, then of r. */
+static int op_tdiv_qr(int argc, tok_t *a, out_t *o) {
+  NEED(argc == 9); long m = mode_of(&a[0]); NEED(m >= 0 && m <= 9);
+  mpz_t q, r, n, d; int e;
+  NEED(mk(q, &a[1], &a[2]) == 0);
+  if (mk(r, &a[3], &a[4])) { mpz_clear(q); return -1; }
+  if (mk(n, &a[5], &a[6])) { mpz_clear(q); mpz_clear(r); return -1; }
+  if (mk(d, &a[7], &a[8])) { mpz_clear(q); mpz_clear(r); mpz_clear(n); return -1; }
+  mpz_ptr Q = q, R = r, N = n, D = d;
+  switch (m) {
+    case 1: Q = n; break;            case 2: Q = d; break;
+    case 3: R = n; break;            case 4: R = d; break;
+    case 5: Q = n; R = d; break;     case 6: Q = d; R = n; break;
+    case 7: D = n; break;            case 8: Q = n; D = n; break;
+    case 9: R = n; D = n; break;
+  }
+  e = GUARD(mpz_tdiv_qr(Q, R, N, D));
+  if (e) out_err(o, "div0"); else { outw(o, Q); outw(o, R); }
+  mpz_clear(q); mpz_clear(r); mpz_clear(n); mpz_clear(d); return 0;
+}
+
 /* mpz_sqrt (w, u): mode wa wv ua uv; mode 0 or 1; a negative operand raises SQRT_OF_NEGATIVE */
 static int op_sqrt(int argc, tok_t *a, out_t *o) {
   NEED(argc == 5); long m = mode_of(&a[0]); NEED(m == 0 || m == 1);
@@ -99,6 +122,6 @@ static int op_mpf_urandomb(int argc, tok_t *a, out_t *o) {
 
 const opdef_t ops_allocsafe4[] = {
   {"as4_addmul_ui", op_addmul_ui}, {"as4_submul_ui", op_submul_ui},
-  {"as4_addmul", op_addmul}, {"as4_submul", op_submul}, {"as4_mul", op_mul}, {"as4_mpf_urandomb", op_mpf_urandomb}, {"as4_sqrt", op_sqrt}, {"as4_tdiv_q", op_tdiv_q}, {"as4_tdiv_r", op_tdiv_r},
+  {"as4_addmul", op_addmul}, {"as4_submul", op_submul}, {"as4_mul", op_mul}, {"as4_mpf_urandomb", op_mpf_urandomb}, {"as4_sqrt", op_sqrt}, {"as4_tdiv_qr", op_tdiv_qr}, {"as4_tdiv_q", op_tdiv_q}, {"as4_tdiv_r", op_tdiv_r},
   {0, 0}
 };
